@@ -46,10 +46,12 @@ REPS = [
     ("third", "(1/3)", ["q", "1", "3"]), ("third", "((2^70+1)/(3*2^70+3))", ["q", "1", "3"]),
     # dict equality ignores the default, so a dict key with a default is the same key as the plain one
     ("d12", "{:0, 1: 2}", ["d", [[cI(1), cI(2)]], cI(0)]),
+    # a non-real complex number whose real part is -0.0 / +0.0 (equal, different bits)
+    ("negi", "(-1i)", ["c", cF(-0.0)[1], cF(-1.0)[1]]), ("negi", "(0 - 1i)", ["c", cF(0.0)[1], cF(-1.0)[1]]),
 ]
-QUICK_REPS = [0, 1, 2, 5, 6, 10, 11, 13, 14, 17, 30, 19, 22, 23, 26, 27]       # 1, 1.0, 2/2, 1/2, 0.5, 2^64, 2.0^64, [1], [1.0], "1", V(1, NaN), V(1.0, NaN)
+QUICK_REPS = [0, 1, 2, 5, 6, 10, 11, 13, 14, 17, 30, 19, 22, 23, 26, 27, 31, 32]       # 1, 1.0, 2/2, 1/2, 0.5, 2^64, 2.0^64, [1], [1.0], "1", V(1, NaN), V(1.0, NaN)
 # depth-3 search: 21 representatives ([NaN], {1: NaN} and the two spellings of 1/3 stay in the grid family, which uses every representative)
-MID_REPS = [0, 1, 2, 3, 4, 5, 6, 7, 9, 10, 11, 12, 13, 14, 15, 16, 17, 30, 19, 22, 23, 26, 27]
+MID_REPS = [0, 1, 2, 3, 4, 5, 6, 7, 9, 10, 11, 12, 13, 14, 15, 16, 17, 30, 19, 22, 23, 26, 27, 31, 32]
 
 OPS = ["set", "inc", "rem", "add", "sub", "merge", "inter", "minus", "plus", "ins"]
 RAISE = "raise"
